@@ -567,13 +567,16 @@ def h_comb_reject(env):
     env.check_true(all(abs(complex(a.terms.get(k, 0)) - complex(b.terms.get(k, 0))) < 1e-12 for k in keys), "combinatorial(H, 3, 2) == combinatorial(H, 3, (1, 1))")
 
 
-def h_comb(env, m, na, nb, canary=False):
+def h_comb(env, m, na, nb, canary=False, complex_ints=False):
+    """complex_ints: Hermitian Hamiltonian with COMPLEX integrals (complex orbitals / magnetic field); the oracle is then the action
+    of the fermionic operator itself on every configuration of the sector"""
     import math
     from symx import shim
     import importlib
     cmod = importlib.import_module("tangelo.toolboxes.qubit_mappings.combinatorial")
-    const, h, eri = sym_integrals(env, m)
-    H = build_fermion_op(fock.molecular_hamiltonian_terms(const, h, eri, m))
+    const, h, eri = (sym_integrals4c if complex_ints else sym_integrals)(env, m)
+    fterms = fock.molecular_hamiltonian_terms(const, h, eri, m)
+    H = build_fermion_op(fterms)
     old = shim.ALLOC_OBJECT
     shim.ALLOC_OBJECT = bool(env.symbolic)
     try:
@@ -606,19 +609,78 @@ def h_comb(env, m, na, nb, canary=False):
         # qubit j of the Pauli sum carries bit j of the index (int_to_tuple: bit pair j of the stabilizer code)
         return tuple((v >> j) & 1 for j in range(nq))
     rep = {bits(v): f for f, v in index.items()}
+    from symx import refsem as _R
+    d_same, d_transposed = _R.C(0), _R.C(0)
     for f, v in index.items():
         got = PB.pauli_apply(q, bits(v), exact=env.symbolic)
-        row = fock.slater_condon_row(f, const, h, eri)
+        row = fock.apply_operator(fterms, f) if complex_ints else fock.slater_condon_row(f, const, h, eri)
         exp = {bits(index[g]): val for g, val in row.items() if g in index}
         if canary and v == 0:
             exp[bits(0)] = exp[bits(0)] + 1
         keys = sorted(set(got) | set(exp))
+        if complex_ints:
+            # the property asks for the same SPECTRUM on the sector: the matrix of Q may be that of H or its transpose
+            # (= complex conjugate, H being Hermitian); accumulated squared distances to both
+            for x in keys:
+                g_, e_ = _R.C(1) * got.get(x, 0), _R.C(1) * exp.get(x, 0)
+                d1, d2 = g_ - e_, g_ - _R.n_conj(e_)
+                d_same, d_transposed = d_same + d1 * _R.n_conj(d1), d_transposed + d2 * _R.n_conj(d2)
+            continue
         env.check_vec_eq([got.get(x, 0) for x in keys], [exp.get(x, 0) for x in keys],
                          f"combinatorial m={m} (n_alpha,n_beta)=({na},{nb}): Q|index {v}> = Slater-Condon row of configuration {f}")
+    if complex_ints:
+        env.check_eq(d_same * d_transposed, 0, f"combinatorial m={m} (n_alpha,n_beta)=({na},{nb}), complex Hermitian integrals: the sector matrix of Q is that "
+                                               f"of H or of its transpose (same spectrum)")
     for v in range(nbasis, 2 ** nq):
         got = PB.pauli_apply(q, bits(v), exact=env.symbolic)
         leak = [got[x] for x in sorted(got) if x in rep]
         env.check_vec_eq(leak, [0] * len(leak), f"combinatorial: padding index {v} does not couple to the represented space")
+
+
+def h_comb_complex_numeric(env, m, na, nb, seed=0):
+    """AUXILIARY concrete shape (ordinary numpy arrays, no solver role): complex Hermitian integrals through the real combinatorial():
+    the sector matrix of the returned operator equals that of H or of its transpose (same spectrum), entry by entry (1e-9). The
+    symbolic twin (combinatorial-complex/*) runs on object arrays, which cannot show a loss caused by the dtype of a numpy array."""
+    import importlib
+    cmod = importlib.import_module("tangelo.toolboxes.qubit_mappings.combinatorial")
+    rnd = random.Random(2000 + seed)
+
+    class Fixed:
+        symbolic = False
+
+        def real(self, name, lo, hi):
+            return rnd.randint(-16, 16) / 8
+
+        def complex(self, name):
+            return complex(rnd.randint(-16, 16) / 8, rnd.choice([-1, 1]) * rnd.randint(1, 16) / 8)
+    with shim.concrete_mode():
+        const, h, eri = sym_integrals4c(Fixed(), m)
+        terms = {t: complex(c) for t, c in fock.molecular_hamiltonian_terms(const, h, eri, m).items() if c != 0}
+        q = cmod.combinatorial(build_fermion_op(dict(terms)), m, (na, nb)).terms
+        ba, bb = cmod.basis(m, na), cmod.basis(m, nb)
+        index = {}
+        for sa, ia in ba.items():
+            for sb, ib in bb.items():
+                f = [0] * (2 * m)
+                for i in sa:
+                    f[2 * i] = 1
+                for i in sb:
+                    f[2 * i + 1] = 1
+                index[tuple(f)] = ia * len(bb) + ib
+        nq = max([qq for w in q for qq, _ in w], default=0) + 1
+        d_same = d_tr = 0.0
+        n_complex = 0
+        for f, v in index.items():
+            got = PB.pauli_apply(q, tuple((v >> j) & 1 for j in range(nq)))
+            row = fock.apply_operator(terms, f)
+            for g, val in row.items():
+                if g in index:
+                    gg = complex(got.get(tuple((index[g] >> j) & 1 for j in range(nq)), 0))
+                    d_same, d_tr = max(d_same, abs(gg - val)), max(d_tr, abs(gg - val.conjugate()))
+                    n_complex += abs(val.imag) > 1e-6
+    env.check_true(n_complex > 0, "harness premise: the sector matrix has complex entries")
+    env.check_true(min(d_same, d_tr) < 1e-9, f"combinatorial m={m} ({na},{nb}), complex Hermitian integrals (numpy arrays): sector matrix == that of H or of its transpose",
+                   detail=f"max deviation from H {d_same}, from H^T {d_tr}")
 
 
 def h_comb_precision(env, m, na, nb, seed=0):
@@ -732,6 +794,10 @@ def shapes(tier, seed):
             for nb in range(m + 1):
                 if math.comb(m, na) * math.comb(m, nb) >= 2:
                     out.append(Shape(f"combinatorial/m{m}/a{na}b{nb}", h_comb, dict(m=m, na=na, nb=nb), modules=MODS))
+    for (m_, na_, nb_) in ((2, 1, 1), (3, 1, 1), (2, 1, 0)) + (((3, 2, 1),) if tier == "thorough" else ()):
+        out.append(Shape(f"combinatorial-complex/m{m_}/a{na_}b{nb_}", h_comb, dict(m=m_, na=na_, nb=nb_, complex_ints=True), modules=MODS))
+    for (m_, na_, nb_) in ((2, 1, 1), (3, 1, 1), (3, 2, 1)):
+        out.append(Shape(f"aux/combinatorial-complex-numeric/m{m_}/a{na_}b{nb_}", h_comb_complex_numeric, dict(m=m_, na=na_, nb=nb_, seed=seed), modules=()))
     out.append(Shape("canary/combinatorial", h_comb, dict(m=2, na=1, nb=1, canary=True), modules=MODS, canary=True))
     for (m, na, nb) in ((2, 1, 1), (3, 2, 1)):
         out.append(Shape(f"precision/combinatorial/m{m}/a{na}b{nb}", h_comb_precision, dict(m=m, na=na, nb=nb), modules=MODS))
